@@ -19,7 +19,7 @@ import vlib
 
 PID = "C13"
 
-NONTRIVIAL_SRC = ("tlc", "truncate", "fixed_badvalue", "typeid", "peer_typeid", "construct")
+NONTRIVIAL_SRC = ("tlc", "truncate", "fixed_badvalue", "inner_length", "typeid", "peer_typeid", "construct")
 
 
 def gen_cases(wd, thorough):
@@ -113,6 +113,8 @@ def selftest(wd, good):
     add("odd-type-rejected", first(lambda r: r["level"] == "wire" and r["m"]["tid"] == "unknown_odd"), obs="reject")
     add("odd-type-disconnects", first(lambda r: r["level"] == "peer" and r["m"]["tid"] == "unknown_odd"), obs="reject")
     add("even-type-ignored", first(lambda r: r["level"] == "peer" and r["m"]["tid"] == "unknown_even"), obs="ignore")
+    add("inner-overrun-accepted", first(lambda r: r["src"] == "inner_length" and r["m"]["inner"] == "overrun"), obs="accept", eq=True, rt=True, canon=False)
+    add("inner-length-not-reencoded", first(lambda r: r["src"] == "inner_length" and r["m"]["inner"] in ("boundary", "retained") and r["cexp"] and r["obs"] == "accept"), canon=False)
     add("over-read", first(lambda r: r["obs"] == "accept"), over=True)
     add("panic", first(lambda r: r["m"]["opaque"]), ev="panic", obs="panic")
     rejected = 0
@@ -126,7 +128,7 @@ def selftest(wd, good):
             rejected += 1
         else:
             vlib.log("[selftest] corruption %s was NOT rejected" % name)
-    if rejected != len(muts) or len(muts) < 8:
+    if rejected != len(muts) or len(muts) < 10:
         raise vlib.ToolError("binding self-test: %d of %d corrupted traces rejected" % (rejected, len(muts)))
     return {"mutations": len(muts), "rejected": rejected}
 
@@ -174,7 +176,7 @@ def run(tier, seed):
         if vlib.report_violation(PID, "%s-run%d" % (rec.get("kind", "x"), runid), {
                 "property": PID, "kind": fl["kind"], "message_kind": rec.get("kind"), "level": rec.get("level"),
                 "family": rec.get("src"), "abstract_message": rec.get("m"), "model_verdict": model,
-                "observed": {k: rec.get(k) for k in ("ev", "obs", "exp", "eq", "rt", "over")},
+                "observed": {k: rec.get(k) for k in ("ev", "obs", "exp", "eq", "rt", "over", "cexp", "canon")},
                 "detail": detail,
                 "how_to_replay": "harness/target/debug/wirecodec %s --only %d ; the `hex` of `detail` is the input "
                                  "(payload for level codec, type-prefixed for wire/peer); "
@@ -190,7 +192,7 @@ def run(tier, seed):
             raise vlib.ToolError("vacuity: %d of %d message kinds could be built" % (summ["kinds_built"], summ["kinds"]))
         if summ["tlv_kinds_bound"] != summ["tlv_kinds"]:
             raise vlib.ToolError("vacuity: TLV records of %d/%d TLV kinds could be located" % (summ["tlv_kinds_bound"], summ["tlv_kinds"]))
-        for src in ("roundtrip", "tlc", "truncate", "fixed_badvalue", "mutate", "random", "typeid", "peer_typeid"):
+        for src in ("roundtrip", "tlc", "truncate", "fixed_badvalue", "inner_length", "mutate", "random", "typeid", "peer_typeid"):
             if summ["by_src"].get(src, 0) == 0:
                 raise vlib.ToolError("vacuity: family %s produced no case" % src)
         if summ["by_obs"].get("accept", 0) * 20 < summ["cases"] or summ["by_obs"].get("reject", 0) * 20 < summ["cases"]:
@@ -203,7 +205,7 @@ def run(tier, seed):
         seen = {}
         for ln in lines:
             r = json.loads(ln)
-            k = (r["src"], r["level"], r["obs"], r["m"]["tid"], r["m"]["fixed"], len(r["m"]["recs"]) > 0, r["m"]["opaque"])
+            k = (r["src"], r["level"], r["obs"], r["m"]["tid"], r["m"]["fixed"], r["m"]["inner"], len(r["m"]["recs"]) > 0, r["m"]["opaque"])
             if seen.get(k, 0) < 3:
                 seen[k] = seen.get(k, 0) + 1
                 head.append(ln)
@@ -227,7 +229,9 @@ def run(tier, seed):
         "evaluations": total,
         "distinct_nontrivial": vlib.distinct_count(nontrivial),
         "rule": "Verdict(m) of spec/Wire.tla evaluated by TLC on every recorded case: accept => decoded, equal to the value the "
-                "present known records denote, and decode(encode(decoded)) = decoded; reject => DecodeError; ignore => unknown "
+                "present known records denote, and decode(encode(decoded)) = decoded (+ encode(decoded) = input bytes where an inner "
+                "declared length ends on an element boundary / covers retained data); reject => DecodeError (incl. any element "
+                "or region overrunning its declared inner length); ignore => unknown "
                 "odd type surfaced as Unknown / connection kept; any (opaque bytes) => no panic, no over-read, re-encoding stable",
         "samples": samples,
         "abstract_cases_from_tlc": len(cases),
@@ -245,7 +249,8 @@ def run(tier, seed):
         "ChannelUpdate values have the must-be-one message flag set and NodeAnnouncement.excess_address_data starts with an "
         "address type this version does not know (what the library itself constructs / retains)",
         "reads past the outer message length are excluded by the LengthLimitedRead contract; confinement to inner declared "
-        "lengths is checked through the verdicts of overrun / short-value / following-record cases",
+        "lengths is checked through the verdicts of TLV overrun / short-value cases and of the inner_length family (addrlen "
+        "vs each address type, prevtx_len, witness lengths, encoded_short_ids, u16-prefixed data/padding/script/onion blobs)",
         "unknown even/odd message types are judged at wire::read (surfaced as Unknown) and end to end on a loop-back "
         "PeerManager pair with IgnoringMessageHandler as custom reader",
     ], time.time() - t0, nviol)
